@@ -42,3 +42,14 @@ def register(check, TIERB_NOTE):
           "UnmarshalSetRequest / UnmarshalNotifications. Requests with one undecodable update are injected as failing operations: they must be rejected.",
           "DESIGN.md §5 (Tier B, C13)", TIERB_NOTE,
           "deterministic simulation: seeded request histories vs gNMI reference model (model-first generation), failing-request injection, ddmin-minimised replay")
+    check("C03", "exploration",
+          "Histories of tree versions v0..vn on a primary, with a replica that is changed only by applying the notifications Diff / DiffWithAtomic emit for "
+          "(vi, vi+1) through ytypes.UnmarshalNotifications. The order of deletes and updates inside each notification comes from Go map iteration inside "
+          "ygot; the simulator's map-order seam picks it from a fresh seeded permutation stream per step, so the replica sees delivery orders that a real "
+          "process produces rarely or never (e.g. a key leaf deleted before its siblings), and only orders Diff itself can emit. After every step: replica == "
+          "vi+1 as leaf sets (and ordered-list order for DiffWithAtomic), every update/delete sound and minimal against the harness's own models, Diff(a,a) "
+          "empty, IgnoreAdditions omits exactly the new leaves. Options MapToSinglePath / PreferShadowPath / IgnoreAdditions are swarm-drawn per step.",
+          "DESIGN.md §5 (C03)",
+          "Sampling of histories and of delivery orders, not enumeration. Trusted: the harness's walker, its deep clone, the instrumenter's rewrite of map iteration. "
+          "Excluded with reason: keyless lists and ordered lists nested in ordered lists (documented as unsupported by ygot).",
+          "deterministic simulation: version histories on primary/replica with seeded map-iteration (delivery-order) schedules, leaf-set reference model, ddmin-minimised replay")
